@@ -40,6 +40,46 @@ fn measure(a: &BigUint, b: &BigUint) -> String {
     }
 }
 
+/// the same product through every call shape that reaches `mul3` (a cost that depends on HOW the operands are passed —
+/// aliased references, owned values, assignment, squaring inside `pow` — is invisible to `&a * &b` on fresh buffers)
+#[allow(dead_code)]
+fn measure_form(form: &str, a: &BigUint, b: &BigUint) -> Option<String> {
+    #[cfg(num_bigint_verif)]
+    {
+        use num_bigint::BigInt;
+        use num_traits::{CheckedMul, Pow};
+        let (a2, b2) = (a.clone(), b.clone());
+        let (ia, ib) = (BigInt::from(a.clone()), -BigInt::from(b.clone()));
+        num_bigint::verif::reset();
+        match form {
+            "rr" => { std::hint::black_box(a * b); }
+            "vv" => { std::hint::black_box(a2 * b2); }
+            "vr" => { std::hint::black_box(a2 * b); }
+            "rv" => { std::hint::black_box(a * b2); }
+            "assign" => { let mut x = a2; x *= b; std::hint::black_box(x); }
+            "assignv" => { let mut x = a2; x *= b2; std::hint::black_box(x); }
+            "checked" => { std::hint::black_box(a.checked_mul(b)); }
+            "irr" => { std::hint::black_box(&ia * &ib); }
+            "ivv" => { std::hint::black_box(ia * ib); }
+            "iassign" => { let mut x = ia; x *= &ib; std::hint::black_box(x); }
+            // the forms below use `a` only (the request repeats it as `b`)
+            "alias" => { std::hint::black_box(a * a); }
+            "ialias" => { std::hint::black_box(&ia * &ia); }
+            "pow2" => { std::hint::black_box(Pow::pow(a, 2u32)); }
+            "pow2v" => { std::hint::black_box(Pow::pow(a2, 2u8)); }
+            "ipow2" => { std::hint::black_box(Pow::pow(&ia, 2u64)); }
+            _ => return None,
+        }
+        let w = num_bigint::verif::work_count();
+        return Some(format!("ok {}", w));
+    }
+    #[cfg(not(num_bigint_verif))]
+    {
+        let _ = (form, a, b);
+        Some("unsupported".to_string())
+    }
+}
+
 pub fn handle(op: &str, a: &[&str]) -> Option<String> {
     Some(match (op, a) {
         #[cfg(num_bigint_verif)]
@@ -51,6 +91,16 @@ pub fn handle(op: &str, a: &[&str]) -> Option<String> {
         }
         #[cfg(num_bigint_verif)]
         ("workv", [x, y]) => measure(&parse_u(x)?, &parse_u(y)?),
+        #[cfg(num_bigint_verif)]
+        ("workf", [f, x, y]) => measure_form(f, &parse_u(x)?, &parse_u(y)?)?,
+        // squaring of the fixed dense operand through aliased references
+        #[cfg(num_bigint_verif)]
+        ("worksq", [f, n, p]) => {
+            let n: usize = n.parse().ok()?;
+            let p: u64 = p.parse().ok()?;
+            let d = dense(p, 0, n);
+            measure_form(f, &d, &d)?
+        }
         _ => return None,
     })
 }
